@@ -286,6 +286,11 @@ impl TaskEngine {
     pub(crate) fn create_task(&self, payload: &TaskSpawnPayload) -> TaskHandle {
         let task_id = Uuid::new_v4().to_string();
         let (sender, _receiver) = broadcast::channel(EVENT_CHANNEL_CAPACITY);
+        #[cfg(rip_verif)]
+        let sender = match crate::verif::event_channel_capacity_override() {
+            Some(capacity) => broadcast::channel(capacity).0,
+            None => sender,
+        };
 
         let execution_mode: ToolTaskExecutionMode = payload
             .execution_mode
